@@ -122,6 +122,10 @@ def posteriorColumns (vars : List (PostVar α)) (i : Nat) : Option (List (List (
   let nRows := (vars.headD ⟨false, false, []⟩).nChains * (keptAll vars i).length
   if vars.all (fun v => (v.column i).length == nRows) then some (vars.map (fun v => v.column i)) else none
 
+/-- repaired selection: `.transpose('chain', 'draw', ...)` before `.values.flatten()` — every variable
+    is laid out chain-major whatever its own dimension order -/
+def PostVar.canonical (v : PostVar α) : PostVar α := { v with drawMajor := false }
+
 /-- `rng.choice(posterior)`: row `idx` of the matrix -/
 def posteriorRow (cols : List (List (Option α))) (idx : Nat) : List (Option α) :=
   cols.map (fun col => col.getD idx none)
